@@ -10,8 +10,12 @@ theorem takeBytes_append (s r : Bytes) : takeBytes s.length (s ++ r) = some (s, 
 
 theorem rd8_u8_cons (n : Nat) (r : Bytes) (h : n < 256) : rd8 (u8 n :: r) = some (n, r) := rd8_u8 n r h
 
-theorem isCode_lt {n : Nat} (h : isCode n = true) : n < 128 := by
+theorem isCode_lt {n : Nat} (h : codeOK n = true) : n < 128 := by
+  simpa [codeOK] using h
+
+theorem isCode_codeOK {n : Nat} (h : isCode n = true) : codeOK n = true := by
   simp only [isCode, Bool.or_eq_true, beq_iff_eq] at h
+  simp only [codeOK, decide_eq_true_eq]
   omega
 
 theorem tag_lt (v : TVal) : v.tag < 256 := by cases v <;> simp [TVal.tag]
